@@ -104,11 +104,17 @@ package stringclassifier
 //@ spec arrNewer(q *pq.Queue, b int) bool = ref(q.heap.a) == 0 || ref(q.heap.a) > b
 //@ spec matcherInv(m *matcher) bool = queueInv(m.queue, m.normUnknown) && allNewer(m.queue, ref(m)) && arrNewer(m.queue, ref(m))
 //@ spec wfMatcher(m *matcher) bool = m != nil && m.unknown != nil && wfSS(m.unknown) && okToks(m.unknown.Tokens, m.normUnknown)
-//@ lockinv matcher.mu = matcherInv
+//@ lockinv matcher.mu = matcherInv protects owner.queue.heap.a, anyelems(owner.queue.heap.a)
 //@
 //@ spec okKnown(k *knownValue) bool = k != nil && (k.set != nil ==> wfSS(k.set))
+//@ // valuesInv: what muValues protects - the map of known values and the lazily
+//@ // built search set of every known value. Rely: entries are never removed or
+//@ // replaced, and a published search set is never replaced (so a known value
+//@ // obtained from the map, and a set once seen non-nil, stay valid after the
+//@ // lock is released). Every critical section is checked to maintain it.
 //@ spec valuesInv(c *Classifier) bool = c.values != nil && (forall k string :: (k in c.values) ==> okKnown(c.values[k]))
-//@ lockinv Classifier.muValues = valuesInv
+//@ spec inValues(c *Classifier, p *knownValue) bool = exists k string :: (k in c.values) && c.values[k] == p
+//@ lockinv Classifier.muValues = valuesInv protects entries(owner.values), allof(knownValue.set) rely (forall k string :: old(k in owner.values) ==> (k in owner.values) && owner.values[k] == old(owner.values[k])) && (forall p *knownValue :: 0 < ref(p) && ref(p) < old(nextref()) && old(p.set) != nil ==> p.set == old(p.set))
 //@
 //@ func newMatcher
 //@   ensures fresh(result) && fresh(result.queue) && wfMatcher(result) && matcherInv(result) && result.normUnknown == unknown
@@ -146,7 +152,7 @@ package stringclassifier
 //
 //@ func (*Classifier).multipleMatch$1
 //@   ghostparam base int
-//@   requires wfMatcher(m) && c != nil && okKnown(known) && held(&c.muValues) == 0 && held(&m.mu) == 0 && base <= ref(m) && base <= ref(m.queue)
+//@   requires wfMatcher(m) && c != nil && known != nil && inValues(c, known) && held(&c.muValues) == 0 && held(&m.mu) == 0 && base <= ref(m) && base <= ref(m.queue)
 //@   ensures held(&c.muValues) == 0 && held(&m.mu) == 0
 //@   callghost findMatches base = base
 //@   modifies known.set, m.queue.heap.a, elemsSince(m.queue.heap.a, base)
@@ -166,8 +172,8 @@ package stringclassifier
 //@   access Classifier.values[] read requires held(&c.muValues) >= 1
 //@   access Classifier.values[] write requires held(&c.muValues) == 2
 //@   afterwait assume matcherInv(m)
-//@   loop 1 invariant wfC(c) && held(&c.muValues) == 1 && valuesInv(c) && wfMatcher(m) && fresh(m) && fresh(m.queue) && m.normUnknown == normOf(c, unknown) && (kvals == nil || fresh(kvals)) && (forall i int :: 0 <= i && i < len(kvals) ==> okKnown(kvals[i]))
-//@   loop 2 invariant wfC(c) && held(&c.muValues) == 0 && wfMatcher(m) && fresh(m) && fresh(m.queue) && m.normUnknown == normOf(c, unknown) && (forall i int :: 0 <= i && i < len(kvals) ==> okKnown(kvals[i]))
+//@   loop 1 invariant wfC(c) && held(&c.muValues) == 1 && valuesInv(c) && wfMatcher(m) && fresh(m) && fresh(m.queue) && m.normUnknown == normOf(c, unknown) && (kvals == nil || fresh(kvals)) && (forall i int :: 0 <= i && i < len(kvals) ==> kvals[i] != nil && inValues(c, kvals[i]))
+//@   loop 2 invariant wfC(c) && held(&c.muValues) == 0 && wfMatcher(m) && fresh(m) && fresh(m.queue) && m.normUnknown == normOf(c, unknown) && (forall i int :: 0 <= i && i < len(kvals) ==> kvals[i] != nil && inValues(c, kvals[i]))
 //@   props C14 C13
 //
 // ---------------------------------------------------------------- public API
@@ -206,7 +212,7 @@ package stringclassifier
 // lock: the normalised unknown text its invariant speaks about; it is fixed
 // once by the creating activation (ghostinit) and demanded by every goroutine.
 //@ spec lockNorm(mu *sync.Mutex) string
-//@ lockinv local nearestMatch.mu = queueInv(pq, lockNorm(&mu)) && allNewer(pq, ref(&mu)) && arrNewer(pq, ref(&mu))
+//@ lockinv local nearestMatch.mu = queueInv(pq, lockNorm(&mu)) && allNewer(pq, ref(&mu)) && arrNewer(pq, ref(&mu)) protects pq.heap.a, anyelems(pq.heap.a)
 //@
 //@ func (*Classifier).nearestMatch$1
 //@   requires typeis(x, "*Match") && unbox(x, "*Match") != nil && typeis(y, "*Match") && unbox(y, "*Match") != nil
